@@ -25,10 +25,13 @@ class LineParker:
         self.resume = threading.Event()
         self.where = None
         self.on_park = None
+        self.on_line = None     # called in the traced thread at every library line event
 
     def _local(self, frame, event, arg):
         if event == 'line':
             self.count += 1
+            if self.on_line is not None:
+                self.on_line(self.count)
             if self.count == self.k:
                 self.where = (os.path.basename(frame.f_code.co_filename), frame.f_code.co_name, frame.f_lineno)
                 self.parked.set()
@@ -42,8 +45,9 @@ class LineParker:
         return None
 
 
-def count_lines(root, fn):
+def count_lines(root, fn, on_line=None):
     p = LineParker(root, -1)
+    p.on_line = on_line
 
     def body():
         sys.settrace(p.tracer)
